@@ -49,6 +49,7 @@ def dispatch (op : String) (args : List String) : Out :=
   | "jquote" => runP opJquote args
   | "jdec" => runP opJdec args
   | "jdecf" => runP opJdec args
+  | "jtail" => runP opJtail args
   | "getjson" => runP opGetJson args
   | "bread" => runP opBread args
   | "opts" => runP opOpts args
@@ -61,6 +62,9 @@ def dispatch (op : String) (args : List String) : Out :=
   | "wfrom" => runP opWfrom args
   | "wat" => runP opWat args
   | "wpfk" => runP opWpfk args
+  | "wmval" => runP opWmval args
+  | "wvfk" => runP opWvfk args
+  | "wattr" => runP opWattr args
   | "implonly" => "na"
   | _ => "bad-op"
 
